@@ -83,7 +83,11 @@ Value& POWExpression::value(Context & ctx) const
     {
       if (a2.isNull() || a1.isNull())
         return LVAL2(Value(Value::type_integer), a1, a2);
-      Value val(Integer(std::pow(*a1.integer(), *a2.integer())));
+      /* the integer result must be representable */
+      Numeric d = std::pow(*a1.integer(), *a2.integer());
+      if (!(d >= -9223372036854775808.0 && d < 9223372036854775808.0))
+        throw RuntimeError(EXC_RT_OUT_OF_RANGE);
+      Value val(static_cast<Integer>(d));
       return LVAL2(val, a1, a2);
     }
     case Type::IMAGINARY:
